@@ -17,6 +17,7 @@ import (
 	"fmt"
 	"io"
 	"log"
+	"math"
 	"os"
 	"path"
 
@@ -112,7 +113,12 @@ func compileBatches(in io.Reader, codec *dnsdata.Codec, destPath string, opts Co
 		batchSize = DefaultBatchSize
 	}
 
-	limiter := make(chan struct{}, opts.BatchNumParallel)
+	// BatchNumParallel <= 0 means no limit on the number of batches in flight
+	numParallel := opts.BatchNumParallel
+	if numParallel <= 0 {
+		numParallel = math.MaxInt32
+	}
+	limiter := make(chan struct{}, numParallel)
 	defer close(limiter)
 
 	db, err = NewRDB(destPath)
